@@ -140,6 +140,24 @@ def run_case(kind, p):
             if float((ww * ((b2 - peaks) ** 2).sum(axis=1)).sum()) < best - 1e-9 * max(1.0, best):
                 msgs.append("fit is not the least-squares optimum for squared weights")
                 break
+    # the caller's arrays are input, not scratch space: read-only reference points / targets / weights / centre give the same fit
+    # and the same image, and the arrays handed in are unchanged afterwards
+    def ro(x):
+        x = np.array(x)
+        x.setflags(write=False)
+        return x
+    ref_c, peaks_c = np.array(ref), np.array(peaks)
+    w_c = None if w is None else np.array(w)
+    try:
+        fit_ro = grm.get_transformation(ro(ref), ro(peaks), center=None if c is None else ro(np.asarray(c, dtype=float)),
+                                        weighs=None if w is None else ro(w))
+        back_ro = grm.do_transformation(ro(fit), ro(ref), center=None if c is None else ro(np.asarray(c, dtype=float)))
+        if not np.array_equal(fit_ro, fit) or not np.array_equal(back_ro, back):
+            msgs.append("read-only input arrays give another fit / image than writable ones")
+    except Exception as e:      # noqa: BLE001
+        msgs.append(f"read-only input arrays: raised {type(e).__name__}: {e}")
+    if not np.array_equal(ref_c, ref) or not np.array_equal(peaks_c, peaks) or (w is not None and not np.array_equal(w_c, w)):
+        msgs.append("get_transformation / do_transformation modified the caller's arrays")
     exact = grm.get_transformation(ref, ref @ np.asarray(p["L"]).T + np.asarray(p["t"]))
     cen = grm.find_center(exact)
     img = grm.do_transformation(exact, cen[np.newaxis, :])[0]
